@@ -308,7 +308,7 @@ CLAIMS = {
   category="other",
   text="Ingredients only, not the end-to-end theorem: contract-based deductive proof over the real source of the per-function building blocks the end-to-end statement rests on, "
        "each for all inputs: split_array / Chunk.split keep every row, in order, wholly on one side of the split; Plugin.do_compute "
-       "hands the computation exactly the rows of time-aligned inputs and declares the result for exactly that interval; "
+       "hands the computation exactly the rows of time-aligned inputs and declares the result for exactly that interval; Plugin._fetch_chunk appends the next chunk of exactly the data type asked for behind what is buffered (nothing dropped, order kept); "
        "Plugin._fix_output wraps a result into a chunk of the declared data type, range and dtype or refuses it; continuity_check lets "
        "only gap-free, overlap-free chunk sequences through; ThreadedMailboxProcessor.__init__ wires lazy mode, drivers and "
        "capacities as specified and feeds a multi-output divider only with outputs that are not loaded from storage (failed on the "
